@@ -49,6 +49,9 @@ pub enum TSpec {
     /// a collection built with the unchecked-at-runtime constructors (`new` / `new_ref` /
     /// `From<&L>`) over shared owned data `datas[data]` (a container of `&mut` leaves)
     OnData { data: usize, kind: CollKind, from: bool, poison: bool },
+    /// a collection whose child is a plain `Vec<&Leaf>` / `Box<[&Leaf]>` of the library's own
+    /// impls (its guard is the library's guard for slices, not a harness container); top level only
+    Slice { kind: CollKind, boxed: bool, members: Vec<Lid>, poison: bool },
 }
 
 #[derive(Clone, Copy, PartialEq, Eq, Debug, Serialize, Deserialize, Hash, PartialOrd, Ord)]
@@ -173,6 +176,17 @@ pub enum BodyOp {
     /// wait until thread .0 is blocked in a raw acquisition of lock .1
     WaitBlocked(usize, Lid),
     NonAcq(NonAcqOp, usize),
+    /// what safe code can do with a guard besides dereferencing it: move the guards of a
+    /// `Vec` / boxed-slice child out of the collection guard (if the guard's type lets it be
+    /// replaced by an empty one) and keep them past the release of the guard
+    StealHolds,
+    /// through a *shared* guard / data reference of the i-th leaf: ask for `&mut` access
+    /// (DerefMut / AsMut) and write if the type grants it; clone the guard (if it is Clone)
+    /// and drop the clone
+    AbuseShared(usize),
+    /// scoped calls only: the closure hands the data it was given back to its caller, which
+    /// uses it (write if exclusive, read if shared) after the call has returned
+    EscapeData(usize),
 }
 
 #[derive(Clone, PartialEq, Eq, Debug, Serialize, Deserialize)]
@@ -384,6 +398,27 @@ impl WorldSpec {
                     poison.pop();
                 }
             }
+            TSpec::Slice { members, poison: pz, .. } => {
+                if *pz {
+                    poison.push(match root {
+                        Some(r) => PoisonId::Coll(r, node_path.clone()),
+                        None => PoisonId::Private(node_path.clone()),
+                    });
+                }
+                for (i, l) in members.iter().enumerate() {
+                    let k = self.leaves[*l];
+                    let mut p = poison.clone();
+                    for d in 0..k.layers() {
+                        p.push(PoisonId::Leaf(*l, d));
+                    }
+                    let mut pp = path.clone();
+                    pp.push(i as u8);
+                    out.push(FlatLeaf { lid: *l, kind: k, path: pp, poison: p, unit: None });
+                }
+                if *pz {
+                    poison.pop();
+                }
+            }
             TSpec::Own { leaves, poison: pz, kind, .. } => {
                 if *pz {
                     poison.push(match root {
@@ -462,6 +497,17 @@ impl WorldSpec {
                     (0..self.leaves[*l].layers()).for_each(|d| out.push(PoisonId::Leaf(*l, d)));
                 }
             }
+            TSpec::Slice { members, poison, .. } => {
+                if *poison {
+                    out.push(match root {
+                        Some(r) => PoisonId::Coll(r, node_path.clone()),
+                        None => PoisonId::Private(node_path.clone()),
+                    });
+                }
+                for l in members {
+                    (0..self.leaves[*l].layers()).for_each(|d| out.push(PoisonId::Leaf(*l, d)));
+                }
+            }
             TSpec::Own { leaves, poison, .. } => {
                 if *poison {
                     out.push(match root {
@@ -497,7 +543,7 @@ impl WorldSpec {
             TSpec::Group { members, .. } => members.iter().for_each(|m| self.elems_rec(m, out)),
             TSpec::Own { leaves, .. } => leaves.iter().for_each(|l| out.push(Elem::Leaf(*l))),
             TSpec::OnData { data, .. } => self.datas[*data].leaves.iter().for_each(|l| out.push(Elem::Leaf(*l))),
-            TSpec::MutRefs { members, .. } => members.iter().for_each(|l| out.push(Elem::Leaf(*l))),
+            TSpec::MutRefs { members, .. } | TSpec::Slice { members, .. } => members.iter().for_each(|l| out.push(Elem::Leaf(*l))),
         }
     }
 
@@ -520,7 +566,7 @@ impl WorldSpec {
             TSpec::Coll { members, .. } => self.has_dup(t) || members.iter().any(|m| self.any_dup(m)),
             TSpec::Shared(i) => self.any_dup(&self.targets[*i]),
             TSpec::Tagged(_, inner) => self.any_dup(inner),
-            TSpec::MutRefs { .. } => self.has_dup(t),
+            TSpec::MutRefs { .. } | TSpec::Slice { .. } => self.has_dup(t),
             TSpec::Group { members, .. } => members.iter().any(|m| self.any_dup(m)),
             _ => false,
         }
@@ -537,7 +583,7 @@ impl WorldSpec {
             TSpec::Own { kind: OwnKind::Boxed, .. } => Some(CollKind::Boxed),
             TSpec::Own { kind: OwnKind::Ref, .. } => Some(CollKind::Ref),
             TSpec::Own { kind: OwnKind::Retry, .. } => Some(CollKind::Retry),
-            TSpec::OnData { kind, .. } => Some(*kind),
+            TSpec::OnData { kind, .. } | TSpec::Slice { kind, .. } => Some(*kind),
             TSpec::MutRefs { kind: OwnKind::Boxed, .. } => Some(CollKind::Boxed),
             TSpec::MutRefs { kind: OwnKind::Ref, .. } => Some(CollKind::Ref),
             TSpec::MutRefs { kind: OwnKind::Retry, .. } => Some(CollKind::Retry),
@@ -551,7 +597,7 @@ impl WorldSpec {
             TSpec::Shared(i) => self.depth(&self.targets[*i]),
             TSpec::Tagged(_, inner) => self.depth(inner),
             TSpec::Group { members, .. } => members.iter().map(|m| self.depth(m)).max().unwrap_or(0),
-            TSpec::Own { .. } | TSpec::OnData { .. } | TSpec::MutRefs { .. } => 1,
+            TSpec::Own { .. } | TSpec::OnData { .. } | TSpec::MutRefs { .. } | TSpec::Slice { .. } => 1,
             _ => 0,
         }
     }
